@@ -65,7 +65,10 @@ def driver(d):
     return {"schema": S, "instances": inst, "refs": refs, "urls": urls}
 
 
-CONFIGS = [(cr, ck) for cr in (True, False) for ck in ("default", "passthrough", "lru1")]
+# (cache_remote, cache functions, transport): the handler transport with every cache kind; the urlopen and
+# requests fallbacks (no handler registered for the scheme) with the default and the pass-through caches
+CONFIGS = [(cr, ck, "handler") for cr in (True, False) for ck in ("default", "passthrough", "lru1")] + \
+          [(cr, ck, tr) for tr in ("urlopen", "requests") for cr in (True, False) for ck in ("default", "passthrough")]
 
 
 def norm(url):
@@ -74,32 +77,66 @@ def norm(url):
     return u[:i].lower() + u[i:] if i > 0 else u
 
 
+class _Resp(object):
+    def __init__(self, doc):
+        self.doc = doc
+
+    def read(self):
+        import json as _json
+        return _json.dumps(self.doc).encode("utf-8")
+
+    def json(self):
+        return copy.deepcopy(self.doc)
+
+    def __enter__(self):
+        return self
+
+    def __exit__(self, *a):
+        return False
+
+
 class Net(object):
-    """Everything that could reach the network, replaced by recorders that fail."""
+    """Everything that could reach the network, replaced by recorders.  They fail, except for the world whose
+    transport they are: then they serve that world's documents through its fetch function (which logs)."""
 
     def __init__(self):
-        self.calls = []
+        self.calls = []         # calls that no world asked for: each is a violation
+        self.world = None
 
     def install(self):
         self.saved_urlopen = jsv.urlopen
+        self.had_requests = "requests" in sys.modules
         self.saved_requests = sys.modules.get("requests", None)
         net = self
 
         def urlopen(uri, *a, **k):
+            w = net.world
+            if w is not None and w.cfg[2] == "urlopen":
+                return _Resp(w.fetch(uri))
             net.calls.append(("urlopen", uri))
             raise IOError("network disabled: " + str(uri))
         fake = types.ModuleType("requests")
 
         def get(uri, *a, **k):
+            w = net.world
+            if w is not None and w.cfg[2] == "requests":
+                return _Resp(w.fetch(uri))
             net.calls.append(("requests.get", uri))
             raise IOError("network disabled: " + str(uri))
         fake.get = get
+        self.fake = fake
         jsv.urlopen = urlopen
         sys.modules["requests"] = fake
 
+    def select(self, world):
+        """Before every operation: the requests module is importable unless the transport is urlopen."""
+        self.world = world
+        sys.modules["requests"] = self.fake if world.cfg[2] != "urlopen" else None
+
     def uninstall(self):
         jsv.urlopen = self.saved_urlopen
-        if self.saved_requests is None:
+        self.world = None
+        if not self.had_requests:
             sys.modules.pop("requests", None)
         else:
             sys.modules["requests"] = self.saved_requests
@@ -111,7 +148,7 @@ NET = Net()
 class World(object):
     def __init__(self, d, cfg, always_ok=False):
         self.d, self.cfg = d, cfg
-        cache_remote, kind = cfg
+        cache_remote, kind, transport = cfg
         self.mode = "ok"
         self.always_ok = always_ok
         self.calls = []           # handler call log (normalised document URLs)
@@ -130,19 +167,20 @@ class World(object):
                 raise FAILURES[sum(self.failures.values()) % len(FAILURES)]("cannot fetch " + uri)
             self.ok_fetches[key] += 1
             return copy.deepcopy(REMOTE[key])
-        kw = {}
+        self.fetch = handler
+        handlers = {"http": handler, "https": handler} if transport == "handler" else {}
         cls = _e1.CLS[d]
         r = RefResolver.from_schema(self.schema, id_of=cls.ID_OF, store=copy.deepcopy(STORE),
-                                    cache_remote=cache_remote, handlers={"http": handler, "https": handler})
+                                    cache_remote=cache_remote, handlers=handlers)
         if kind == "passthrough":
             # the remote cache must wrap the resolver's own method: build it in two steps
             r = RefResolver(base_uri=cls.ID_OF(self.schema), referrer=self.schema, store=copy.deepcopy(STORE),
-                            cache_remote=cache_remote, handlers={"http": handler, "https": handler},
+                            cache_remote=cache_remote, handlers=handlers,
                             urljoin_cache=urljoin, remote_cache=lambda url: r.resolve_from_url(url))
         elif kind == "lru1":
             holder = {}
             r = RefResolver(base_uri=cls.ID_OF(self.schema), referrer=self.schema, store=copy.deepcopy(STORE),
-                            cache_remote=cache_remote, handlers={"http": handler, "https": handler},
+                            cache_remote=cache_remote, handlers=handlers,
                             urljoin_cache=functools.lru_cache(1)(urljoin),
                             remote_cache=functools.lru_cache(1)(lambda url: holder["r"].resolve_from_url(url)))
             holder["r"] = r
@@ -166,7 +204,7 @@ _trace = {}
 def trace(d, i):
     key = (d, i)
     if key not in _trace:
-        w = World(d, (True, "passthrough"), always_ok=True)
+        w = World(d, (True, "passthrough", "handler"), always_ok=True)
         urls = []
         orig = w.resolver.resolve
 
@@ -190,7 +228,7 @@ def is_local(url):
 
 def model_resolve_url(w, url, through_cache=True):
     """The boring model of one URL resolution; returns value-description or raises KeyError('RRE')."""
-    cache_remote, kind = w.cfg
+    cache_remote, kind, transport = w.cfg
     if through_cache and kind != "passthrough" and url in w.m_urlcache:
         w.m_urlcache.move_to_end(url)
         return w.m_urlcache[url]
@@ -300,6 +338,7 @@ class Model(object):
         return 1 if op == ("mode", "fail") else 0
 
     def apply(self, w, op):
+        NET.select(w)
         n_net = len(NET.calls)
         obs, pred = run_op(w, op)
         w.last_pred = pred
@@ -319,7 +358,7 @@ class Model(object):
                 tuple(sorted((k, min(n, 2)) for k, n in w.ok_fetches.items())))
 
     def check(self, w, hist, op, obs):
-        cache_remote, kind = w.cfg
+        cache_remote, kind, transport = w.cfg
         if obs != w.last_pred:
             return ("differs-from-cache-model|%s|%s" % (op[0], "+".join(map(str, w.cfg))),
                     {"observed": obs, "model": w.last_pred})
@@ -364,6 +403,8 @@ def plan(ctx):
     units = []
     for d in drafts:
         for ci in range(len(CONFIGS)):
+            if ctx.tier == "quick" and CONFIGS[ci][2] != "handler" and d != 7:
+                continue        # the fallback transports meet one draft in the quick tier
             m = get_model(d, ci)
             units += [(d, ci, i) for i in range(len(m.all_ops))]
     D0, D1, dev = depths(ctx)
@@ -372,7 +413,8 @@ def plan(ctx):
         "rule": ("a driver schema referring to two handler-served documents through 6 distinct references "
                  "(several fragments, '#', no fragment, upper-case scheme, a document that refers on), one "
                  "store-supplied document and the bundled metaschema; configurations {cache_remote on, off} x "
-                 "{default lru, pass-through, lru_cache(1)}; operations: validate 4 instances, resolve 9 "
+                 "{default lru, pass-through, lru_cache(1)} with a scheme handler, and x {default, pass-through} with "
+                 "the urlopen and the requests fallbacks (no handler; served by recording stubs); operations: validate 4 instances, resolve 9 "
                  "reference spellings, resolving, resolve_from_url, handler fail/ok toggles (failures are "
                  "deviations, bound 2); all histories un-merged to D0, merged by canonical state to D1; every "
                  "transition is compared with the fetch-count/availability model (result and exact handler call "
